@@ -41,6 +41,10 @@ func c02Leaf(r *core.Rng) *LeafDesc {
 	case 5:
 		return &LeafDesc{Tag: "bool", B: r.Bool()}
 	case 6:
+		if r.Chance(1, 3) {
+			// unsigned values beyond the signed range (the description stores the bit pattern)
+			return &LeafDesc{Tag: []string{"uint64", "uint"}[r.Intn(2)], I: []int64{-1, -9223372036854775808, -9223372036854775807, -2, -int64(r.U64() >> 2)}[r.Intn(5)]}
+		}
 		return &LeafDesc{Tag: "int64", I: int64(r.U64() >> 1)}
 	case 7:
 		return &LeafDesc{Tag: "name", S: c02Texts[r.Intn(13)]}
